@@ -58,6 +58,7 @@ static void judge_leaf(const Cfg &cfg, const Hist &h, const std::string &cell)
 		// parties stuck in a DeliverFrom wait although the sender's broadcast exists in their channel and nothing is in flight for them
 		for (int p = 0; p < cfg.n && w->viol_key.empty(); p++)
 		{
+			for (int rep = 0; rep < 3 && cfg.honest[p] && w->waits(p); rep++) w->apply(Ev{'F', p, w->prog[p][w->pc[p]].a, cfg.n});
 			if (!cfg.honest[p] || !w->waits(p)) continue;
 			int s = w->prog[p][w->pc[p]].a;
 			if (!cfg.honest[s]) continue;
@@ -298,7 +299,7 @@ static Cfg chan_cfg(int variant, bool fifo)
 	switch (variant)
 	{
 		case 0: // everybody: broadcast in base, enter inner, broadcast in inner, leave, broadcast in base (party 0 only broadcasts)
-			c.prog[0] = {Ev{'B', 1001, 0, 0}, Ev{'S', 1, 1, 0}, Ev{'B', 1101, 0, 0}, Ev{'U', 0, 0, 0}, Ev{'B', 1002, 0, 0}};
+			c.prog[0] = {Ev{'B', 1001, 0, 0}, Ev{'S', 1, 1, 0}, Ev{'B', 1101, 0, 0}, Ev{'U', 0, 0, 0}};
 			c.prog[1] = {Ev{'S', 1, 1, 0}, Ev{'U', 0, 0, 0}};
 			break;
 		case 1: // two senders in different channels at the same time
@@ -543,7 +544,8 @@ static void build_cells(bool thorough)
 					{
 						Cfg c = base_cfg(4, 1, f != 0, -1);
 						c.prog[0].push_back(Ev{'X', (int)val_of(0, 0), victim + 16 * flags + 256 * extra, 0});
-						c.prog[0].push_back(Ev{'B', (int)val_of(0, 1), 0, 0});
+						c.prog[0].push_back(Ev{'B', 1500, 0, 0});
+						c.byz_slots = 2;
 						std::string sub = id + ",flags=" + str(flags) + ",extra=" + str(extra);
 						ok = dfs(c, sub, thorough ? 1 : 0, {}, std::make_pair(-1, -1), {});
 					}
